@@ -400,6 +400,9 @@ class PEP(object):
 
         """
 
+        # Forget the output of any previous solve: until a new solution is found, no value is available.
+        self._forget_previous_solution()
+
         # Create an expression that serve for the objective (min of the performance measures)
         self.objective = Expression(is_leaf=True)
 
@@ -646,6 +649,24 @@ class PEP(object):
         else:
             raise ValueError("The argument \'return_primal_or_dual\' must be \'dual\' or \`primal\`."
                              "Got {}".format(return_primal_or_dual))
+
+    def _forget_previous_solution(self):
+        """
+        Discard the primal and dual values stored by a previous solve,
+        so that no object can be evaluated to the solution of an earlier (possibly different) problem.
+
+        """
+        for point in Point.list_of_leaf_points:
+            point._value = None
+        for expression in Expression.list_of_leaf_expressions:
+            expression._value = None
+        for constraint in self._list_of_constraints_sent_to_wrapper:
+            constraint._dual_variable_value = None
+        for psd_matrix in self._list_of_psd_sent_to_wrapper:
+            psd_matrix._dual_variable_value = None
+        self.G_value = None
+        self.F_value = None
+        self.residual = None
 
     def check_feasibility(self, wc_value, verbose=1):
         """
